@@ -33,7 +33,7 @@ def pylist(arr):
     """the elements of an array as hashable keys (None = missing)"""
     out = []
     for v in arr.data.to_pylist():
-        out.append(None if v is None else json.dumps(v))
+        out.append(None if v is None else v.hex() if isinstance(v, bytes) else json.dumps(v))
     return out
 
 
